@@ -99,6 +99,21 @@ def run(ctx):
         p = pred[k]
         cases.append({"run": len(cases), "layout": k[0], "pred": p["pred"],
                       "ops": [{"op": h["op"], "gap": h["gap"] * TICK_MS, "s": 0, "e": 0} for h in p["hist"]]})
+    # twins with a slow writer (truncate, pause of additionalWait/3, data): the model expands a write into the same
+    # primitives at one instant with every interleaving, the real os.WriteFile never lets the watcher in between
+    nslow = 0
+    for k in short + pick[:ctx.pick(6, 60)]:
+        p = pred[k]
+        if p["hist"][0]["op"] not in ("Write", "Create") or p["pred"] == "mixed":
+            continue
+        cases.append({"run": len(cases), "layout": k[0], "pred": p["pred"],
+                      "ops": [{"op": h["op"], "gap": h["gap"] * TICK_MS, "s": 0, "e": 0,
+                               "slow": h["op"] in ("Write", "Create")} for h in p["hist"]]})
+        nslow += 1
+    for c in cases:
+        for o in c["ops"]:
+            o.setdefault("slow", False)
+    ctx.set("scenarios_with_slow_writer", nslow)
     casef = vf.write_ndjson(ctx.path("cases.ndjson"), cases)
     obsf = ctx.path("obs.ndjson")
     vf.gotest_ok(ctx, "./internal/confwatcher/", "^TestVerif_C38_Replay$", cases=casef, out=obsf, timeout=900,
@@ -126,12 +141,12 @@ def run(ctx):
 
     def show(o):
         return ("layout=%s scenario=[%s] (model: %s); measured ms: ops %s, signals %s; final=%r loaded=%r" % (
-            o["layout"], " ".join("%s@%d" % (x["op"], x["gap"]) for x in o["ops"]), o["pred"],
+            o["layout"], " ".join("%s%s@%d" % (x["op"], "(slow)" if x.get("slow") else "", x["gap"]) for x in o["ops"]), o["pred"],
             ["%.1f-%.1f" % (x["s"] / 1000.0, x["e"] / 1000.0) for x in o["ops"]],
             ["%.1f:%s" % (s["t"] / 1000.0, s["content"]) for s in o["signals"]], o["final"], o["loaded"]))
     for o, b in bad:
         rec = {"class": b["class"], "layout": o["layout"],
-               "scenario": " ".join("%s@%d" % (x["op"], x["gap"]) for x in o["ops"])}
+               "scenario": " ".join("%s%s@%d" % (x["op"], "(slow)" if x.get("slow") else "", x["gap"]) for x in o["ops"])}
         ctx.violation(rec, "the real ConfWatcher lost the final content (%s): %s; observation window %.1f s after the last "
                            "operation, no later signal" % (b["class"], show(o), (o["obsEnd"] - o["ops"][-1]["e"]) / 1e6))
     ctx.set("traces_validated_against_impl", len(obs))
